@@ -500,7 +500,16 @@ pub fn exec_model(view: &mut State, next_row_id: &mut u64, s: &Stmt) -> (MOut, V
                         nr[*col] = match set {
                             SetExpr::Lit(v) => v.clone(),
                             SetExpr::Add(k) => match &r[*col] {
-                                Val::Int(i) => Val::Int(i + k),
+                                Val::Int(i) => {
+                                    let (lo, hi) = if def.cols[*col].ty == Ty::Int { (i32::MIN as i64, i32::MAX as i64) } else { (i64::MIN, i64::MAX) };
+                                    match i.checked_add(*k) {
+                                        Some(v) if v >= lo && v <= hi => Val::Int(v),
+                                        _ => {
+                                            err = Some("integer overflow".to_string());
+                                            break;
+                                        }
+                                    }
+                                }
                                 Val::Dbl(d) => Val::Dbl(d + *k as f64),
                                 _ => Val::Null,
                             },
@@ -517,6 +526,7 @@ pub fn exec_model(view: &mut State, next_row_id: &mut u64, s: &Stmt) -> (MOut, V
                         changed.push((*id, nr));
                     }
                     match err {
+                        Some(m) if m == "integer overflow" => MOut::Err(ErrClass::Other, m),
                         Some(m) => MOut::Err(ErrClass::Constraint, m),
                         None => {
                             let n = changed.len() as u64;
